@@ -533,7 +533,11 @@ func (m *model) applySPM(mu Mut) bool {
 func (m *model) applyTokCfg(mu Mut) bool {
 	doc, ok := m.docs["tokcfg"]
 	if !ok {
-		return false
+		if m.c.Adapter != nil {
+			return false
+		}
+		doc = map[string]any{"tokenizer_class": "LlamaTokenizer"}
+		m.docs["tokcfg"], m.names["tokcfg"] = doc, "tokenizer_config.json"
 	}
 	if mu.Op == "raw" {
 		return m.rawFile("tokcfg", mu.Val)
@@ -553,7 +557,11 @@ func (m *model) applyTokCfg(mu Mut) bool {
 func (m *model) applySTMap(mu Mut) bool {
 	doc, ok := m.docs["stmap"]
 	if !ok {
-		return false
+		if m.c.Adapter != nil {
+			return false
+		}
+		doc = map[string]any{"unk_token": "<unk>"}
+		m.docs["stmap"], m.names["stmap"] = doc, "special_tokens_map.json"
 	}
 	if mu.Op == "raw" {
 		return m.rawFile("stmap", mu.Val)
@@ -573,7 +581,11 @@ func (m *model) applySTMap(mu Mut) bool {
 func (m *model) applyAdded(mu Mut) bool {
 	doc, ok := m.docs["added"]
 	if !ok {
-		return false
+		if !m.hasSPM {
+			return false
+		}
+		doc = map[string]any{}
+		m.docs["added"], m.names["added"] = doc, "added_tokens.json"
 	}
 	if mu.Op == "raw" {
 		return m.rawFile("added", mu.Val)
